@@ -38,9 +38,9 @@ package autog
 //@     invariant[ncopied|C02] forall i int :: 0 <= i && i < d && (!g.Nodes[i].IsVirtual || layoutOpts.output.includeVirtual) ==>
 //@          (exists j int :: loopold(len(out.Nodes)) <= j && j < len(out.Nodes) && out.Nodes[j].ID == g.Nodes[i].ID
 //@             && out.Nodes[j].W == g.Nodes[i].W && out.Nodes[j].H == g.Nodes[i].H && out.Nodes[j].Y == g.Nodes[i].Y && out.Nodes[j].X == g.Nodes[i].X + shift)
-//@     invariant[nonly|C02] forall j int :: loopold(len(out.Nodes)) <= j && j < len(out.Nodes) ==>
-//@          (exists i int :: 0 <= i && i < d && (!g.Nodes[i].IsVirtual || layoutOpts.output.includeVirtual) && out.Nodes[j].ID == g.Nodes[i].ID
-//@             && out.Nodes[j].W == g.Nodes[i].W && out.Nodes[j].H == g.Nodes[i].H && out.Nodes[j].Y == g.Nodes[i].Y && out.Nodes[j].X == g.Nodes[i].X + shift)
+//@     invariant[nonly|C02] forall j int :: loopold(len(out.Nodes)) <= j && j < len(out.Nodes) ==> (exists i int :: 0 <= i && i < d && out.Nodes[j].ID == g.Nodes[i].ID)
+//@   assert[mcopy|C02] before "out.Nodes = append(out.Nodes, m)" : n == g.Nodes[d] && (!n.IsVirtual || layoutOpts.output.includeVirtual)
+//@          && m.ID == n.ID && m.W == n.W && m.H == n.H && m.Y == n.Y && m.X == n.X + shift
 //@   assert[fitsAfter|C04,C09] after "for _, l := range g.Layers" : forall j int :: 0 <= j && j < len(out.Nodes) ==>
 //@          out.Nodes[j].X + out.Nodes[j].W + layoutOpts.params.NodeSpacing <= shift + rightmostX + layoutOpts.params.NodeSpacing
 //@   loop range(g.Edges)#1 index ei
